@@ -2,6 +2,7 @@ package rules
 
 import (
 	"fmt"
+	"go/types"
 	"sort"
 	"strings"
 
@@ -9,6 +10,7 @@ import (
 	"verif/checker/internal/load"
 	"verif/checker/internal/report"
 	"verif/checker/internal/shape"
+	"verif/checker/internal/sym"
 )
 
 // helperModel is one line of the slice-model table (DESIGN appendix B): what the
@@ -128,7 +130,7 @@ func proveEQWhereNonEmpty(g *lin.Ctx, nonEmpty, a, b *lin.Expr) bool {
 func CheckC16(c *Ctx) {
 	run := c.Run
 	run.Technique = "token-count abstract interpretation of every stage body in helper/ (lengths, consumption, anchors, capacities as symbolic expressions), compared with a frozen slice-model table by exact linear entailment"
-	run.Explanation = "For every stream helper the number of elements on each output, the number of elements taken from each input, whether each input is consumed to the end, the anchor of the first output element, the fill prefix, the output capacity and close-on-all-paths are derived from the helper's current source for symbolic input lengths and parameters, and proved equal to the slice model for ALL lengths and parameters in the helper's domain. Which values are emitted (the function applied) is not decided."
+	run.Explanation = "For every stream helper the number of elements on each output, the number of elements taken from each input, whether each input is consumed to the end, the anchor of the first output element, the fill prefix, the output capacity and close-on-all-paths are derived from the helper's current source for symbolic input lengths and parameters, and proved equal to the slice model for ALL lengths and parameters in the helper's domain. Which values are emitted (the function applied) is not decided. Values: for the 27 arithmetic and copying helpers (Abs … Divide, Change/ChangeRatio/ChangePercent, Skip/Head/First/Buffered/Waitable/Shift/SyncPeriod/Duplicate, Since) the term every output element carries is derived (closures inlined, delays from the anchors) and compared with the model term as a rational function; the values of Map/Apply/Operate/Filter/MapWithPrevious are those of the caller's function, Last/Echo/Count/SliceToChan values are not decided."
 	run.Trusted = []string{"go/types", "helper.Ring fullness model (occupancy = min(puts,size) - gets)", "slice-model table HelperModels (DESIGN appendix B)", "Fourier–Motzkin entailment (internal/lin)"}
 	// every channel function of helper/ must be modelled or explicitly exempt
 	models := map[string]helperModel{}
@@ -168,6 +170,7 @@ func CheckC16(c *Ctx) {
 		}
 	}
 	run.Floor("helpers", 39)
+	c.helperValues()
 	for k, v := range helpersNotModelled {
 		run.Note("not modelled: helper." + k + " — " + v)
 	}
@@ -338,4 +341,88 @@ func (c *Ctx) checkHelper(m helperModel, fi *load.FuncInfo, r *shape.Result) {
 				Message: "close/drain order differs from the model (" + m.Close + ")"})
 		}
 	}
+}
+
+// helperValueModels: the value every element of the output carries, as a term over the inputs
+// (the same language as the formula table of C01). Copying helpers carry the input itself.
+var helperValueModels = map[string]string{
+	"Abs": "abs(c)", "Sign": "sign(c)", "KeepPositives": "pos(c)", "KeepNegatives": "neg(c)",
+	"Pow": "pow(c, y)", "Sqrt": "sqrt(c)", "RoundDigits": "RoundDigit(c, d)",
+	"IncrementBy": "c + i", "DecrementBy": "c - d", "MultiplyBy": "c * m", "DivideBy": "c / d",
+	"Add": "ac + bc", "Subtract": "ac - bc", "Multiply": "ac * bc", "Divide": "ac / bc",
+	"Change": "c - at(c, before)", "ChangeRatio": "(c - at(c, before)) / at(c, before)", "ChangePercent": "(c - at(c, before)) / at(c, before) * 100",
+	"Skip": "c", "Head": "c", "First": "c", "Buffered": "c", "Waitable": "c", "Shift": "c", "SyncPeriod": "c", "Duplicate": "input",
+	"Since": `op("closure:helper.Since#1", c)`,
+}
+
+// helperValues compares the value term of each arithmetic/copying helper with its model.
+func (c *Ctx) helperValues() {
+	run := c.Run
+	var names []string
+	for n := range helperValueModels {
+		names = append(names, n)
+	}
+	sort.Strings(names)
+	for _, n := range names {
+		fi := c.P.Func("helper", n)
+		if fi == nil {
+			run.Break("anchor missing: helper." + n)
+			continue
+		}
+		var dom map[string]int64
+		for _, hm := range HelperModels {
+			if hm.Fn == n {
+				dom = hm.Domain
+			}
+		}
+		rs := c.Results(fi, Opts{Mode: shape.ModeInline, ParamDomain: dom})
+		if len(rs) == 0 {
+			continue
+		}
+		r := rs[0]
+		env := &specEnv{r: r, params: map[string]bool{}, locals: map[string]bool{}}
+		for _, ps := range r.ParamStreams {
+			env.params[ps.Param] = true
+		}
+		sig := fi.Fn.Type().(*types.Signature)
+		for i := 0; i < sig.Params().Len(); i++ {
+			pn := sig.Params().At(i).Name()
+			if !env.params[pn] {
+				env.locals[pn] = true
+			}
+		}
+		want, err := env.parse(helperValueModels[n])
+		if err != nil {
+			run.Break("bad value model for helper." + n + ": " + err.Error())
+			continue
+		}
+		tm := shape.NewTerms(c.P, r)
+		for i, o := range retStreams(r) {
+			run.Count("helper_values", 1)
+			got := normaliseParams(tm.Of(o))
+			ok := sym.Equal(got, want)
+			run.Oblige(ok)
+			if !ok {
+				run.Violate(report.Finding{Rule: "helper-model/value", Site: fmt.Sprintf("helper.%s/out%d", n, i), Detail: short(sym.CanonString(got), 120), Pos: c.P.Pos(fi.Decl.Pos()),
+					Message: fmt.Sprintf("every element of helper.%s should carry %s, the code computes %s", n, sym.CanonString(want), short(sym.CanonString(got), 200))})
+			}
+		}
+	}
+	run.Floor("helper_values", 27)
+}
+
+// normaliseParams: scalar parameters of a root appear as cfg:<name> or plain symbols in value
+// terms; the models name them directly.
+func normaliseParams(e sym.Expr) sym.Expr {
+	vs := map[string]bool{}
+	sym.Vars(e, vs)
+	sub := map[string]sym.Expr{}
+	for v := range vs {
+		if strings.HasPrefix(v, "cfg?:") {
+			sub[v] = sym.V(v[5:])
+		} else if strings.HasPrefix(v, "cfg:") {
+			sub[v] = sym.V(v[4:])
+		}
+	}
+	return sym.Subst(e, sub)
 }
